@@ -137,10 +137,11 @@ def render_node(n, top=False):
 
 
 def render(g, constraints=()):
-    lines = []
+    """g may carry "code" (Python helper code, placed first) and "gens" (symbol -> generator expression)"""
+    lines = [g["code"].rstrip("\n")] if g.get("code") else []
     order = [g["start"]] + [s for s in g["rules"] if s != g["start"]]
     for s in order:
-        lines.append("%s ::= %s" % (s, render_node(g["rules"][s], top=True)))
+        lines.append("%s ::= %s%s" % (s, render_node(g["rules"][s], top=True), (" := " + g["gens"][s]) if s in g.get("gens", {}) else ""))
     lines.extend(constraints)
     return "\n".join(lines) + "\n"
 
